@@ -9,6 +9,7 @@ CONSTANTS
   GasVals = {0, 2, 4}
   MaxSteps = 4
   MaxDepth = 2
+  MaxTx = 1
   Bug = "none"
   ExportOn = TRUE
 INIT Init
